@@ -242,13 +242,13 @@ def normalise(v):
     if isinstance(v, bool) or v is None:
         return v
     if isinstance(v, int):
-        return v
+        return int(v)               # int subclasses come back as int
     if isinstance(v, D):
         return v
     if isinstance(v, float):
         return single(v)
     if isinstance(v, str):
-        return v
+        return str(v) if type(v) is not str else v
     if isinstance(v, (datetime.datetime, time.struct_time)):
         return dt_from_seconds(instant_seconds(v))
     if isinstance(v, dict):
